@@ -54,8 +54,11 @@ Sem(pool, e) ==
            IF x # {} THEN Sem_(x, NoRes, pool)
            ELSE Sem_({}, ResFlag(bb[e.a + 1] = 1), pool)
       [] e.op = "setbit" ->
-           LET x == BitKeyExc(w, e.ak, e.a) IN
-           IF x # {} THEN Sem_(x, NoRes, pool)
+           LET x == BitKeyExc(w, e.ak, e.a)
+               \* a value that cannot be truth-tested (an array-like object whose __bool__ raises) is no bit value: the
+               \* write is refused and, like every refused write, leaves the frame as it was
+               vx == IF e.val.t = "untruth" THEN AnyExc ELSE {} IN
+           IF x \cup vx # {} THEN Sem_(x \cup vx, NoRes, pool)
            ELSE Sem_({}, NoRes,
                      [pool EXCEPT ![e.f].b = [bb EXCEPT ![e.a + 1] = IF e.val.truth THEN 1 ELSE 0]])
       [] e.op = "getslice" ->
